@@ -179,9 +179,11 @@ class SymEvaluator(ev.BaseEvaluator):
     def __init__(self):
         super().__init__()
         self.calls = 0
+        self.ops: list = []
 
     def _eval(self, schema, inputs, attributes, closure):
         self.calls += 1
+        self.ops.append(schema.name)
         if schema.domain not in ("", "ai.onnx"):
             raise NotEncoded(f"op {schema.domain}::{schema.name}")
         ins = [to_sv(x) for x in inputs]
@@ -267,5 +269,5 @@ def eager_paths(fn, args, kwargs=None, max_depth=8, max_paths=64, base_constrain
             continue
         outs = out if isinstance(out, (tuple, list)) else [out]
         results.append({"pc": list(PS.pc), "bottom": None, "outs": [to_sv(o) for o in outs],
-                        "assumptions": list(PS.assumptions), "unwind": [], "uf": set(PS.uf)})
+                        "assumptions": list(PS.assumptions), "unwind": [], "uf": set(PS.uf), "eager_ops": sorted(set(evaluator.ops))})
     return results, cut
